@@ -1550,16 +1550,21 @@ impl LsmTree {
                     .with_debug_field("discard_setsum", discard_setsum.hexdigest()),
             );
         }
-        #[cfg(rescrv_blue_verif)]
-        crate::verif::probe("compaction.before_manifest");
-        let ret = self.apply_manifest_compaction(compaction, discard_setsum, mani_edit, outputs);
-        #[cfg(rescrv_blue_verif)]
-        crate::verif::probe("compaction.after_manifest");
+        // NOTE:  The scratch directory is named after the setsum of the inputs, and so is the
+        // scratch directory of a compaction over this compaction's outputs when nothing was
+        // discarded.  The outputs are linked into place, so remove the scratch copies before the
+        // outputs become visible to other compaction threads; removing them afterwards races with
+        // the next compaction's setup, which clears and recreates a directory of that name.
         for path in paths.into_iter() {
             COMPACTION_REMOVE.click();
             remove_file(&path).with_debug_field("path", &path)?;
         }
         remove_dir(&compaction_dir).with_debug_field("dir", &compaction_dir)?;
+        #[cfg(rescrv_blue_verif)]
+        crate::verif::probe("compaction.before_manifest");
+        let ret = self.apply_manifest_compaction(compaction, discard_setsum, mani_edit, outputs);
+        #[cfg(rescrv_blue_verif)]
+        crate::verif::probe("compaction.after_manifest");
         ret
     }
 
